@@ -208,3 +208,7 @@ End Diagnose.
 
 (* hash-tree-root of an execution payload value of fork f (what the engine is shown) *)
 Definition payload_root (E : Env) (f : fork) (p : value) : bytes := htr E (ExecutionPayloadT (cfg E) f) p.
+
+(* hash-tree-root (Spec merkleization) of a state given as SSZ bytes: compared with the root zrnt's tree-backed view reports *)
+Definition run_state_root (E : Env) (f : fork) (bs : bytes) : option bytes :=
+  match decode_state (cfg E) f bs with Some st => Some (state_root E f st) | None => None end.
